@@ -72,7 +72,7 @@ def explore(contract: Contract, index: Index, registry=None, max_paths=MAX_PATHS
                 rep.aborts.append(dict(case=case_name, reason="path limit", line=None))
                 break
             T.reset_names()
-            ctx = Ctx(script)
+            ctx = Ctx(script, use_quantified_pc=getattr(contract, "quantified_pc", False))
             ctx.prefix = f"{contract.qual}[{case_name}]"
             s = S(ctx)
             args = contract.setup(s, case_name)
